@@ -101,14 +101,36 @@ type c16Replica struct {
 	tree   []hotstuff.ID // tree positions or nil
 }
 
+func c16OneTo(n int) []hotstuff.ID {
+	ids := make([]hotstuff.ID, n)
+	for i := range ids {
+		ids[i] = hotstuff.ID(i + 1)
+	}
+	return ids
+}
+
 func c16NewReplica(id hotstuff.ID, n int, seed int64, treePos []hotstuff.ID) *c16Replica {
+	return c16NewReplicaIDs(id, c16OneTo(n), seed, treePos)
+}
+
+// addReplicas grows the membership of an already wired replica (what network.Sender.Connect does
+// after all components, including the leader rotation, have been created).
+func (r *c16Replica) addReplicas(ids []hotstuff.ID) {
+	for _, id := range ids {
+		r.cfg.AddReplica(&hotstuff.ReplicaInfo{ID: id})
+	}
+	r.n = r.cfg.ReplicaCount()
+}
+
+func c16NewReplicaIDs(id hotstuff.ID, members []hotstuff.ID, seed int64, treePos []hotstuff.ID) *c16Replica {
+	n := len(members)
 	opts := []core.RuntimeOption{core.WithSharedRandomSeed(seed)}
 	if treePos != nil {
-		opts = append(opts, core.WithKauriTree(tree.NewSimple(id, 2, slices.Clone(treePos))))
+		opts = append(opts, core.WithKauriTree(tree.NewSimple(id, 2+int(id%3), slices.Clone(treePos))))
 	}
 	cfg := core.NewRuntimeConfig(id, nil, opts...)
-	for i := 1; i <= n; i++ {
-		cfg.AddReplica(&hotstuff.ReplicaInfo{ID: hotstuff.ID(i)})
+	for _, m := range members {
+		cfg.AddReplica(&hotstuff.ReplicaInfo{ID: m})
 	}
 	logger := logging.NewWithDest(io.Discard, fmt.Sprintf("c16-%d", id))
 	el := eventloop.New(logger, 10)
@@ -139,7 +161,7 @@ func (r *c16Replica) gConfig() string {
 	if r.tree != nil {
 		tr = fmt.Sprintf("(Some (Build_tree %s %s))", gN(uint64(r.id)), c16Ids(r.tree))
 	}
-	return fmt.Sprintf("(Build_config %s %s %s %s)", gN(uint64(r.id)), gZ(int64(r.n)), gZ(r.seed), tr)
+	return fmt.Sprintf("(Build_config %s %s %s %s)", gN(uint64(r.id)), gZ(int64(r.cfg.ReplicaCount())), gZ(r.seed), tr)
 }
 
 func c16Ids(ids []hotstuff.ID) string {
@@ -211,7 +233,7 @@ func c16Ranges(v *verifOut, short bool) []c16Range {
 // c16Segments emits the answers obs[0..] for views lo, lo+1, ... in the lossless run-length form of
 // Corr/C16.v (a segment ends where the next answer is not the one seg_next predicts).
 func c16Segments(v *verifOut, s *verifStream, scheme string, r *c16Replica, nOverride *int64, lo uint64, obs []c16Obs, meta map[string]any) {
-	n := int64(r.n)
+	n := int64(r.cfg.ReplicaCount())
 	cfg := r.gConfig()
 	if nOverride != nil {
 		n = *nOverride
@@ -365,14 +387,49 @@ type c16Chain struct {
 
 // build constructs the chain's blocks for one replica: perm reorders every signer list; local=false keeps
 // only the committed heads out of local storage, everything else must be fetched through the sender.
-func (c *c16Chain) build(r *c16Replica, perm func([]hotstuff.ID) []hotstuff.ID, local bool) []*hotstuff.Block {
+// c16MakeSig wraps a signer list in one of the certificate containers of the repository:
+// 0 the order-controlled stub, 1 crypto.Multi of ECDSA signatures (iterates in slice order),
+// 2 BLS12 aggregate with a bitfield (iterates in ascending id order; needs small distinct ids).
+func c16MakeSig(flavour int, ids []hotstuff.ID) hotstuff.QuorumSignature {
+	switch flavour {
+	case 1:
+		sigs := make([]*crypto.ECDSASignature, len(ids))
+		for i, id := range ids {
+			sigs[i] = crypto.RestoreECDSASignature(binary.LittleEndian.AppendUint32([]byte("c16"), uint32(id)), id)
+		}
+		return crypto.NewMulti(sigs...)
+	case 2:
+		seen := map[hotstuff.ID]bool{}
+		ok := len(ids) > 0
+		for _, id := range ids {
+			if id == 0 || id > 2048 || seen[id] {
+				ok = false
+			}
+			seen[id] = true
+		}
+		if ok {
+			var bf crypto.Bitfield
+			for _, id := range ids {
+				bf.Add(id)
+			}
+			inf := make([]byte, 96)
+			inf[0] = 0xc0 // compressed point at infinity of G2
+			if agg, err := crypto.RestoreBLS12AggregateSignature(inf, bf); err == nil {
+				return agg
+			}
+		}
+	}
+	return c16Sig{ids: ids}
+}
+
+func (c *c16Chain) build(r *c16Replica, perm func([]hotstuff.ID) []hotstuff.ID, local bool, flavour int) []*hotstuff.Block {
 	out := make([]*hotstuff.Block, len(c.blocks))
 	parent := hotstuff.GetGenesis()
 	ts := time.Date(2025, 1, 2, 0, 0, 0, 0, time.UTC)
 	for i, b := range c.blocks {
 		var sig hotstuff.QuorumSignature
 		if b.signers != nil {
-			sig = c16Sig{ids: perm(slices.Clone(b.signers))}
+			sig = c16MakeSig(flavour, perm(slices.Clone(b.signers)))
 		}
 		qc := hotstuff.NewQuorumCert(sig, parent.View(), parent.Hash())
 		blk := hotstuff.NewBlock(parent.Hash(), qc, &clientpb.Batch{}, hotstuff.View(b.view), b.proposer)
@@ -425,8 +482,26 @@ func c16Subset(rng *rand.Rand, n, k int) []hotstuff.ID {
 
 // c16GenChain draws a chain of length 0..12. kind: 0 well-formed (signer sets of size q..n, duplicate-free,
 // configured ids), 1 malformed (small / empty / unconfigured / repeated signers, missing ancestors).
-func c16GenChain(rng *rand.Rand, n, length int, startView uint64, kind int) *c16Chain {
+func c16GenChain(rng *rand.Rand, n, length int, startView uint64, kind int, univ []hotstuff.ID) *c16Chain {
 	c := &c16Chain{n: n}
+	defer func() {
+		if univ == nil {
+			return
+		}
+		// rename 1..n to the configured ids (ids outside 1..n stay what they are)
+		ren := func(id hotstuff.ID) hotstuff.ID {
+			if id >= 1 && int(id) <= n {
+				return univ[id-1]
+			}
+			return id
+		}
+		for i := range c.blocks {
+			c.blocks[i].proposer = ren(c.blocks[i].proposer)
+			for j := range c.blocks[i].signers {
+				c.blocks[i].signers[j] = ren(c.blocks[i].signers[j])
+			}
+		}
+	}()
 	q := hotstuff.QuorumSize(n)
 	view := startView
 	pattern := rng.Intn(4)
@@ -453,7 +528,18 @@ func c16GenChain(rng *rand.Rand, n, length int, startView uint64, kind int) *c16
 			b.signers = nil
 		}
 		if kind == 1 {
-			switch rng.Intn(6) {
+			switch rng.Intn(8) {
+			case 6:
+				if len(b.signers) > 0 { // a signer repeated at an arbitrary position
+					d := b.signers[rng.Intn(len(b.signers))]
+					b.signers = slices.Insert(b.signers, rng.Intn(len(b.signers)+1), d)
+				}
+			case 7:
+				if rng.Intn(2) == 0 { // id 0 as signer or proposer
+					b.signers = slices.Insert(b.signers, rng.Intn(len(b.signers)+1), 0)
+				} else {
+					b.proposer = 0
+				}
 			case 0:
 				b.signers = c16Subset(rng, n, rng.Intn(q)) // below quorum, possibly empty
 			case 1:
@@ -473,13 +559,13 @@ func c16GenChain(rng *rand.Rand, n, length int, startView uint64, kind int) *c16
 	return c
 }
 
-func c16WellFormed(n int, signers []hotstuff.ID) bool {
-	if len(signers) < hotstuff.QuorumSize(n) {
+func c16WellFormed(members []hotstuff.ID, signers []hotstuff.ID) bool {
+	if len(signers) < hotstuff.QuorumSize(len(members)) {
 		return false
 	}
 	seen := map[hotstuff.ID]bool{}
 	for _, id := range signers {
-		if id < 1 || int(id) > n || seen[id] {
+		if !slices.Contains(members, id) || seen[id] {
 			return false
 		}
 		seen[id] = true
@@ -553,11 +639,37 @@ type c16Scenario struct {
 	blocks  [3][]*hotstuff.Block
 	tag     string
 	rngSeed int64
+	listed  [3][]string   // per replica and block: the certificate's signer list as first built
+	members []hotstuff.ID // configured replica ids
+	contig  bool          // members = 1..n (the rotation schemes' documented assumption)
+	flav    [3]int        // certificate container per replica
+}
+
+// ids that are large, non-contiguous, agree in their low bits, or sit at type boundaries
+var c16BigIDs = []hotstuff.ID{1 << 8, 1 << 15, 1 << 16, 1 << 24, 1 << 31, 1<<31 + 1, math.MaxUint32, math.MaxUint32 - 1,
+	5, 5 + 1<<8, 5 + 1<<16, 5 + 1<<24, 5 + 1<<31, 3, 3 + 1<<31, 70000, 65535, 65537, 255, 257, 2, 1, 1<<31 - 1, 1 << 30}
+
+func c16BigMembers(rng *rand.Rand, n int) []hotstuff.ID {
+	out := make([]hotstuff.ID, n)
+	for i, p := range rng.Perm(len(c16BigIDs))[:n] {
+		out[i] = c16BigIDs[p]
+	}
+	return out
 }
 
 func c16NewScenario(rng *rand.Rand, n, cl, length int, startView uint64, kind int, tag string) *c16Scenario {
-	sc := &c16Scenario{n: n, cl: cl, seed: c16Seed(rng), kind: kind, tag: tag}
-	sc.chain = c16GenChain(rng, n, length, startView, kind)
+	return c16NewScenarioIDs(rng, nil, n, cl, length, startView, kind, tag)
+}
+
+// members == nil: replicas 1..n
+func c16NewScenarioIDs(rng *rand.Rand, members []hotstuff.ID, n, cl, length int, startView uint64, kind int, tag string) *c16Scenario {
+	sc := &c16Scenario{n: n, cl: cl, seed: c16Seed(rng), kind: kind, tag: tag, members: members, contig: members == nil}
+	sc.chain = c16GenChain(rng, n, length, startView, kind, members)
+	if members == nil {
+		sc.members = c16OneTo(n)
+	}
+	// certificate containers: A always the stub; B stub or ECDSA multi-signature; C stub, ECDSA or BLS bitfield
+	sc.flav = [3]int{0, rng.Intn(2), rng.Intn(3)}
 	// A and B have different own ids (when n >= 2); C has B's own id but is wired separately and gets every
 	// certificate with its signers listed in another order, so B-vs-C isolates the listing order
 	ids := c16Subset(rng, n, min(n, 2))
@@ -565,11 +677,16 @@ func c16NewScenario(rng *rand.Rand, n, cl, length int, startView uint64, kind in
 		ids = append(ids, ids[len(ids)-1])
 	}
 	for i := range sc.reps {
-		sc.reps[i] = c16NewReplica(ids[i], n, sc.seed, nil)
+		sc.reps[i] = c16NewReplicaIDs(sc.members[ids[i]-1], sc.members, sc.seed, nil)
 	}
-	sc.blocks[0] = sc.chain.build(sc.reps[0], c16Same, true)
-	sc.blocks[1] = sc.chain.build(sc.reps[1], c16Same, rng.Intn(3) > 0) // sometimes everything is fetched
-	sc.blocks[2] = sc.chain.build(sc.reps[2], c16Shuffled(rng), true)
+	sc.blocks[0] = sc.chain.build(sc.reps[0], c16Same, true, sc.flav[0])
+	sc.blocks[1] = sc.chain.build(sc.reps[1], c16Same, rng.Intn(3) > 0, sc.flav[1]) // sometimes everything is fetched
+	sc.blocks[2] = sc.chain.build(sc.reps[2], c16Shuffled(rng), true, sc.flav[2])
+	for i := range sc.blocks {
+		for _, b := range sc.blocks[i] {
+			sc.listed[i] = append(sc.listed[i], fmt.Sprint(c16SignerList(b)))
+		}
+	}
 	return sc
 }
 
@@ -582,7 +699,8 @@ func (sc *c16Scenario) head(i, k int) *hotstuff.Block {
 
 func (sc *c16Scenario) describe(k int, view uint64) map[string]any {
 	m := map[string]any{"n": sc.n, "chain_length_param": sc.cl, "shared_seed": sc.seed, "queried_view": view, "committed_head_index": k, "scenario": sc.tag,
-		"own_ids": []uint32{uint32(sc.reps[0].id), uint32(sc.reps[1].id), uint32(sc.reps[2].id)}}
+		"own_ids": []uint32{uint32(sc.reps[0].id), uint32(sc.reps[1].id), uint32(sc.reps[2].id)},
+		"configured_ids": fmt.Sprint(sc.members), "certificate_containers_ABC": sc.flav}
 	var bl []map[string]any
 	for i := 0; i <= k; i++ {
 		b := sc.chain.blocks[i]
@@ -624,11 +742,28 @@ func c16Carousel(v *verifOut) {
 				hv = sc.chain.blocks[k].view
 				signers = sc.chain.blocks[k].signers
 			}
-			wf := k < 0 || signers == nil || c16WellFormed(sc.n, signers)
-			for _, view := range c16Queries(rng, hv, sc.cl, 3) {
+			wf := k < 0 || signers == nil || c16WellFormed(sc.members, signers)
+			qs := c16Queries(rng, hv, sc.cl, 2)
+			// the same round asked before and after a commit: the rounds for which the carousel is / was /
+			// will be active under the neighbouring committed heads
+			// (the next head's round comes last: it is also the first question after the next commit)
+			for _, nb := range []int{k - 1, k + 2, k + 1} {
+				if nb >= 0 && nb < len(sc.chain.blocks) {
+					qs = append(qs, sc.chain.blocks[nb].view+uint64(int64(sc.cl)))
+				}
+			}
+			for _, view := range qs {
 				var o [3]c16Obs
 				for i := range lrs {
 					o[i] = c16Leader(lrs[i], hotstuff.View(view))
+				}
+				// a replica that asks for the first time under this committed head (fresh rotation object
+				// on replica A's wiring) must get what the long-lived object answers
+				first := c16Leader(sc.reps[0].rotation(NameCarousel, sc.cl), hotstuff.View(view))
+				for i := range sc.reps {
+					if k >= 0 && fmt.Sprint(c16SignerList(sc.head(i, k))) != sc.listed[i][k] {
+						v.Oracle(false, "carousel:mutates-certificate", fmt.Sprintf("GetLeader(%d) changed the signer list of the committed head's certificate from %s to %v", view, sc.listed[i][k], c16SignerList(sc.head(i, k))), sc.describe(k, view))
+					}
 				}
 				active := signers != nil && hv == view-uint64(int64(sc.cl))
 				in := sc.describe(k, view)
@@ -659,8 +794,10 @@ func c16Carousel(v *verifOut) {
 						v.Oracle(false, "carousel:depends-on-own-id", fmt.Sprintf("carousel GetLeader(%d): replica %d says %d, replica %d says %d (same committed chain, same seed)", view, sc.reps[0].id, o[0].id, sc.reps[1].id, o[1].id), in)
 					case o[1].id != o[2].id:
 						v.Oracle(false, "carousel:depends-on-signer-order", fmt.Sprintf("carousel GetLeader(%d): replica %d says %d, replica %d (same certificate signers in another order) says %d", view, sc.reps[1].id, o[1].id, sc.reps[2].id, o[2].id), in)
-					case o[0].id < 1 || int(o[0].id) > sc.n:
-						v.Oracle(false, "carousel:unknown-replica", fmt.Sprintf("carousel GetLeader(%d) returned %d with n=%d", view, o[0].id, sc.n), in)
+					case !first.same(o[0]):
+						v.Oracle(false, "carousel:depends-on-earlier-queries", fmt.Sprintf("carousel GetLeader(%d) under the same committed head: the long-lived object says %s, an object asked for the first time says %s", view, o[0], first), in)
+					case (sc.contig || active) && !slices.Contains(sc.members, o[0].id):
+						v.Oracle(false, "carousel:unknown-replica", fmt.Sprintf("carousel GetLeader(%d) returned %d, configured ids %v", view, o[0].id, sc.members), in)
 					case active && !slices.Contains(signers, o[0].id):
 						v.Oracle(false, "carousel:not-a-signer", fmt.Sprintf("active carousel chose %d, not a signer of the committed head's certificate %v", o[0].id, signers), in)
 					case active && slices.Contains(last, o[0].id):
@@ -710,6 +847,12 @@ func c16Carousel(v *verifOut) {
 	for rd := 0; rd < v.Pick(2, 12); rd++ {
 		for _, n := range []int{1, 3, 4, 7, 10} {
 			run(c16NewScenario(rng, n, 1+rng.Intn(3), 2+rng.Intn(8), uint64(rng.Intn(3)), 1, "malformed"))
+		}
+	}
+	// large, non-contiguous replica ids (own ids, signers, proposers): 2^8 .. 2^32-1, ids equal in their low bits
+	for rd := 0; rd < v.Pick(2, 12); rd++ {
+		for _, n := range []int{2, 4, 7, 10, 16} {
+			run(c16NewScenarioIDs(rng, c16BigMembers(rng, n), n, 1+rng.Intn(3), 3+rng.Intn(6), uint64(rng.Intn(5)), rd%2, "large-ids"))
 		}
 	}
 }
@@ -841,6 +984,10 @@ func c16Reputation(v *verifOut) {
 		for i, r := range sc.reps {
 			lrs[i] = r.rotation(NameReputation, sc.cl)
 		}
+		// D: a second object on replica A's wiring that sees the same committed heads but is asked another
+		// (not old) view before each of A's questions: credits depend on the heads only, so D must answer A's
+		// questions like A
+		lrD := sc.reps[0].rotation(NameReputation, sc.cl)
 		k := -1
 		var trace []string
 		for step := 0; step < steps; step++ {
@@ -871,7 +1018,7 @@ func c16Reputation(v *verifOut) {
 			for i, r := range sc.reps {
 				r.vs.UpdateCommittedBlock(sc.head(i, k))
 			}
-			wf := signers == nil || c16WellFormed(sc.n, signers)
+			wf := signers == nil || c16WellFormed(sc.members, signers)
 			var o [3]c16Obs
 			var before, after [3]c16RepState
 			for i := range lrs {
@@ -879,6 +1026,17 @@ func c16Reputation(v *verifOut) {
 				o[i] = c16Leader(lrs[i], hotstuff.View(view))
 				after[i] = c16ReadState(lrs[i])
 			}
+			old := func(x uint64) bool { return hv > x-uint64(int64(sc.cl)) }
+			other := view + 1 + uint64(rng.Intn(6))
+			var oD, oD0 c16Obs
+			var beforeD, afterD c16RepState
+			askedOther := !old(view) && !old(other)
+			if askedOther {
+				beforeD = c16ReadState(lrD)
+				oD0 = c16Leader(lrD, hotstuff.View(other))
+				afterD = c16ReadState(lrD)
+			}
+			oD = c16Leader(lrD, hotstuff.View(view))
 			trace = append(trace, fmt.Sprintf("head=%d(view %d) GetLeader(%d) -> %s / %s / %s", k, hv, view, o[0], o[1], o[2]))
 			in := sc.describe(k, view)
 			in["answers"] = []string{o[0].String(), o[1].String(), o[2].String()}
@@ -903,10 +1061,26 @@ func c16Reputation(v *verifOut) {
 					v.Oracle(false, "reputation:panic", fmt.Sprintf("reputation GetLeader(%d) panicked: %s %s %s", view, o[0].msg, o[1].msg, o[2].msg), in)
 				case o[0].id != o[1].id:
 					v.Oracle(false, "reputation:depends-on-own-id", fmt.Sprintf("reputation GetLeader(%d): replica %d says %d, replica %d says %d (same heads, same queries, same seed)", view, sc.reps[0].id, o[0].id, sc.reps[1].id, o[1].id), in)
+				case !oD.same(o[0]):
+					v.Oracle(false, "reputation:depends-on-queried-views", fmt.Sprintf("reputation GetLeader(%d): an object that saw the same committed heads but was asked other (not old) views in between says %s, replica %d says %s", view, oD, sc.reps[0].id, o[0]), in)
 				case o[1].id != o[2].id:
 					v.Oracle(false, "reputation:depends-on-signer-order", fmt.Sprintf("reputation GetLeader(%d): replica %d says %d, replica %d (same certificate signers in another order, same heads and queries) says %d", view, sc.reps[1].id, o[1].id, sc.reps[2].id, o[2].id), in)
 				default:
 					v.Oracle(true, "", "", nil)
+				}
+			}
+			if askedOther && step%2 == 0 {
+				voters := c16SignerList(sc.head(0, k))
+				tabs := "([], [], [], [])"
+				if voters != nil {
+					tabs = c16RepTables(sc.reps[0].cfg.ReplicaCount(), sc.seed, other, hv, voters, beforeD, afterD)
+				}
+				v.Case(s, fmt.Sprintf("(%s, %s, %s, %s, %s, %s, %s, %s)", sc.reps[0].gConfig(), gZ(int64(sc.cl)), tabs, beforeD.g(),
+					sc.chain.gHead(k, voters), gN(other), oD0.g(), afterD.g()), map[string]any{"replica": "D (other views first)", "input": in})
+			}
+			for i := range sc.reps {
+				if k >= 0 && fmt.Sprint(c16SignerList(sc.head(i, k))) != sc.listed[i][k] {
+					v.Oracle(false, "reputation:mutates-certificate", fmt.Sprintf("GetLeader(%d) changed the signer list of the committed head's certificate from %s to %v", view, sc.listed[i][k], c16SignerList(sc.head(i, k))), in)
 				}
 			}
 			for i, r := range sc.reps {
@@ -931,7 +1105,7 @@ func c16Reputation(v *verifOut) {
 	for rd := 0; rd < v.Pick(3, 30); rd++ {
 		for _, n := range sizes {
 			for _, cl := range []int{1, 2, 3} {
-				run(c16NewScenario(rng, n, cl, 4+rng.Intn(9), uint64(rng.Intn(5)), 0, "generated"), 14)
+				run(c16NewScenario(rng, n, cl, 4+rng.Intn(9), uint64(rng.Intn(5)), 0, "generated"), 11)
 			}
 		}
 	}
@@ -948,6 +1122,196 @@ func c16Reputation(v *verifOut) {
 			run(c16NewScenario(rng, n, 1+rng.Intn(3), 3+rng.Intn(6), uint64(rng.Intn(3)), 1, "malformed"), 10)
 		}
 	}
+	for rd := 0; rd < v.Pick(2, 12); rd++ {
+		for _, n := range []int{2, 4, 7, 13} {
+			run(c16NewScenarioIDs(rng, c16BigMembers(rng, n), n, 1+rng.Intn(3), 4+rng.Intn(6), uint64(rng.Intn(5)), 0, "large-ids"), 10)
+		}
+	}
+}
+
+// ---------------------------------------------------------------------------------------------
+// membership that grows after the rotation objects exist (network.Sender.Connect adds the replicas after
+// every component has been wired): an object created, and possibly already asked, while only the first k
+// replicas were configured must answer like an object created after all n are known.
+
+func c16Growth(v *verifOut) {
+	ss := v.Stream("stateless", "stateless_mismatches", 60)
+	sc_ := v.Stream("carousel", "carousel_mismatches", 400)
+	sr := v.Stream("reputation", "reputation_mismatches", 300)
+	rng := v.rng
+	pairs := [][2]int{{0, 1}, {0, 4}, {1, 4}, {3, 4}, {4, 7}, {2, 10}, {6, 7}, {4, 13}, {0, 7}, {5, 6}}
+	views := []uint64{0, 1, 2, 3, 5, 6, 7, 11, 12, 13, 41, 1<<32 - 1, 1 << 32, 1<<63 + 1, math.MaxUint64 - 1, math.MaxUint64}
+	for pi, pr := range pairs {
+		for _, askBefore := range []bool{false, true} {
+			k, n := pr[0], pr[1]
+			cl := 1 + (pi % 3)
+			seed := c16Seed(rng)
+			var treePos []hotstuff.ID
+			if pi%2 == 0 {
+				for _, p := range rng.Perm(n) {
+					treePos = append(treePos, hotstuff.ID(p+1))
+				}
+			}
+			own := hotstuff.ID(1 + rng.Intn(n))
+			g := c16NewReplicaIDs(own, c16OneTo(k), seed, treePos) // long-lived: wired with k replicas
+			chain := c16GenChain(rng, n, 6+rng.Intn(4), uint64(rng.Intn(4)), 0, nil)
+			gBlocks := chain.build(g, c16Same, true, 0)
+			names := []string{NameRoundRobin, NameFixed, NameTree, NameCarousel, NameReputation}
+			gls := map[string]LeaderRotation{}
+			for _, nm := range names {
+				gls[nm] = g.rotation(nm, cl)
+			}
+			gScheme := map[string]string{NameRoundRobin: "SRoundRobin", NameFixed: "(SFixed 1%N)", NameTree: "STree"}
+			headAt := func(r *c16Replica, blocks []*hotstuff.Block, h int) (uint64, []hotstuff.ID) {
+				if h < 0 {
+					r.vs.UpdateCommittedBlock(hotstuff.GetGenesis())
+					return 0, nil
+				}
+				r.vs.UpdateCommittedBlock(blocks[h])
+				return chain.blocks[h].view, chain.blocks[h].signers
+			}
+			emitCarousel := func(r *c16Replica, h int, view uint64, o c16Obs, meta map[string]any) {
+				sv := seed + int64(view)
+				var voters []hotstuff.ID
+				if h >= 0 {
+					voters = chain.blocks[h].signers
+				}
+				v.Case(sc_, fmt.Sprintf("(%s, %s, [(%s, %s)], %s, %s, %s)", r.gConfig(), gZ(int64(cl)), gZ(sv), gZ(c16Drawn(sv)),
+					chain.gHead(h, voters), gN(view), o.g()), meta)
+			}
+			askRep := func(r *c16Replica, lr LeaderRotation, h int, hv, view uint64, meta map[string]any) c16Obs {
+				before := c16ReadState(lr)
+				o := c16Leader(lr, hotstuff.View(view))
+				after := c16ReadState(lr)
+				var voters []hotstuff.ID
+				if h >= 0 {
+					voters = chain.blocks[h].signers
+				}
+				tabs := "([], [], [], [])"
+				if voters != nil {
+					tabs = c16RepTables(r.cfg.ReplicaCount(), seed, view, hv, voters, before, after)
+				}
+				v.Case(sr, fmt.Sprintf("(%s, %s, %s, %s, %s, %s, %s, %s)", r.gConfig(), gZ(int64(cl)), tabs, before.g(),
+					chain.gHead(h, voters), gN(view), o.g(), after.g()), meta)
+				return o
+			}
+			base := map[string]any{"scenario": "membership-growth", "configured_when_created": k, "configured_when_asked": n, "asked_before_growth": askBefore,
+				"own_id": uint32(own), "chain_length_param": cl, "shared_seed": seed, "tree_positions": fmt.Sprint(treePos)}
+			if askBefore {
+				// questions while only k replicas are known (model: c_n = k; round-robin with k = 0 divides by zero)
+				hv, _ := headAt(g, gBlocks, 1)
+				m := map[string]any{"stage": "before growth", "input": base}
+				for _, view := range []uint64{hv + uint64(cl), 3, 7} {
+					for nm, gs := range gScheme {
+						c16Segments(v, ss, gs, g, nil, view, []c16Obs{c16Leader(gls[nm], hotstuff.View(view))}, m)
+					}
+					emitCarousel(g, 1, view, c16Leader(gls[NameCarousel], hotstuff.View(view)), m)
+					if k >= 1 {
+						askRep(g, gls[NameReputation], 1, hv, view, m)
+					}
+					v.Seen(fmt.Sprintf("grow-before k=%d n=%d v=%d %v", k, n, view, askBefore), true, nil)
+					v.Count("growth_asked_before")
+				}
+			}
+			var added []hotstuff.ID
+			for i := k + 1; i <= n; i++ {
+				added = append(added, hotstuff.ID(i))
+			}
+			g.addReplicas(added)
+			// the reference: wired after the membership is complete
+			f := c16NewReplicaIDs(own, c16OneTo(n), seed, treePos)
+			fBlocks := chain.build(f, c16Same, true, 0)
+			fls := map[string]LeaderRotation{}
+			for _, nm := range names {
+				fls[nm] = f.rotation(nm, cl)
+			}
+			for h := -1; h < len(chain.blocks); h++ {
+				hv, signers := headAt(g, gBlocks, h)
+				headAt(f, fBlocks, h)
+				qs := append([]uint64{hv + uint64(cl), hv + uint64(cl) + 1}, views[rng.Intn(len(views))], views[rng.Intn(len(views))])
+				for _, view := range qs {
+					in := map[string]any{"queried_view": view, "committed_head_index": h, "committed_head_view": hv, "head_signers": fmt.Sprint(signers)}
+					for kk, x := range base {
+						in[kk] = x
+					}
+					m := map[string]any{"stage": "after growth", "input": in}
+					v.Seen(fmt.Sprintf("grow k=%d n=%d h=%d v=%d %v seed=%d", k, n, h, view, askBefore, seed), n >= 4, in)
+					v.Count("growth_asked_after")
+					for _, nm := range names {
+						if nm == NameReputation {
+							continue
+						}
+						og, of := c16Leader(gls[nm], hotstuff.View(view)), c16Leader(fls[nm], hotstuff.View(view))
+						in["answers_"+nm] = []string{og.String(), of.String()}
+						switch {
+						case og.panicked || of.panicked:
+							v.Oracle(false, nm+":panic", fmt.Sprintf("%s GetLeader(%d) panicked after the membership grew from %d to %d: %s %s", nm, view, k, n, og.msg, of.msg), in)
+						case !og.same(of):
+							v.Oracle(false, nm+":stale-replica-count", fmt.Sprintf("%s GetLeader(%d) with %d replicas configured: the object created when %d were known says %s, an object created afterwards says %s", nm, view, n, k, og, of), in)
+						case og.id < 1 || int(og.id) > n:
+							v.Oracle(false, nm+":unknown-replica", fmt.Sprintf("%s GetLeader(%d) returned %d with n=%d", nm, view, og.id, n), in)
+						default:
+							v.Oracle(true, "", "", nil)
+						}
+						if gs, ok := gScheme[nm]; ok {
+							c16Segments(v, ss, gs, g, nil, view, []c16Obs{og}, m)
+						} else {
+							emitCarousel(g, h, view, og, m)
+						}
+					}
+					// reputation: both objects see the same heads and questions from here on; their credits can
+					// only be compared when the long-lived one was not asked (and credited) before the growth
+					og := askRep(g, gls[NameReputation], h, hv, view, m)
+					of := c16Leader(fls[NameReputation], hotstuff.View(view))
+					in["answers_reputation"] = []string{og.String(), of.String()}
+					switch {
+					case og.panicked || of.panicked:
+						v.Oracle(false, "reputation:panic", fmt.Sprintf("reputation GetLeader(%d) panicked after the membership grew from %d to %d: %s %s", view, k, n, og.msg, of.msg), in)
+					case !askBefore && !og.same(of):
+						v.Oracle(false, "reputation:stale-replica-count", fmt.Sprintf("reputation GetLeader(%d) with %d replicas configured: the object created when %d were known says %s, an object created afterwards and asked the same questions says %s", view, n, k, og, of), in)
+					default:
+						v.Oracle(true, "", "", nil)
+					}
+				}
+			}
+		}
+	}
+	// fixed leader and tree positions with large, non-contiguous ids (round-robin assumes ids 1..n by design)
+	for rd := 0; rd < 4; rd++ {
+		n := []int{2, 5, 9, 16}[rd]
+		members := c16BigMembers(rng, n)
+		pos := slices.Clone(members)
+		rng.Shuffle(n, func(i, j int) { pos[i], pos[j] = pos[j], pos[i] })
+		a := c16NewReplicaIDs(members[0], members, 0, pos)
+		b := c16NewReplicaIDs(members[n-1], members, 0, pos)
+		lead := members[rng.Intn(n)]
+		for _, sch := range []struct {
+			name, g string
+			la, lb  LeaderRotation
+		}{
+			{"tree-leader", "STree", a.rotation(NameTree, 1), b.rotation(NameTree, 1)},
+			{"fixed", fmt.Sprintf("(SFixed %s)", gN(uint64(lead))), NewFixed(lead), NewFixed(lead)},
+		} {
+			for _, view := range views {
+				oa, ob := c16Leader(sch.la, hotstuff.View(view)), c16Leader(sch.lb, hotstuff.View(view))
+				in := map[string]any{"scheme": sch.name, "configured_ids": fmt.Sprint(members), "tree_positions": fmt.Sprint(pos), "view": view, "answers": []string{oa.String(), ob.String()}}
+				v.Seen(fmt.Sprintf("big %s %v v=%d", sch.name, members, view), true, in)
+				v.Count("stateless_large_ids")
+				switch {
+				case oa.panicked || ob.panicked:
+					v.Oracle(false, "stateless:panic", fmt.Sprintf("%s GetLeader(%d) panicked: %s %s", sch.name, view, oa.msg, ob.msg), in)
+				case !oa.same(ob):
+					v.Oracle(false, "stateless:replicas-disagree", fmt.Sprintf("%s GetLeader(%d): replica %d says %s, replica %d says %s", sch.name, view, a.id, oa, b.id, ob), in)
+				case !slices.Contains(members, oa.id):
+					v.Oracle(false, "stateless:unknown-replica", fmt.Sprintf("%s GetLeader(%d) returned %d, configured ids %v", sch.name, view, oa.id, members), in)
+				default:
+					v.Oracle(true, "", "", nil)
+				}
+				c16Segments(v, ss, sch.g, a, nil, view, []c16Obs{oa}, map[string]any{"input": in})
+				c16Segments(v, ss, sch.g, b, nil, view, []c16Obs{ob}, map[string]any{"input": in})
+			}
+		}
+	}
 }
 
 func TestVerifC16(t *testing.T) {
@@ -955,5 +1319,6 @@ func TestVerifC16(t *testing.T) {
 	c16Stateless(v)
 	c16Carousel(v)
 	c16Reputation(v)
-	v.Close("stateless: every (scheme, n in 1..64, view in grid) on two replicas; carousel/reputation: every (committed chain, head, queried view) on three replicas; non-trivial = n >= 2 and view >= n (stateless), active carousel / weighted pick with n >= 4")
+	c16Growth(v)
+	v.Close("stateless: every (scheme, n in 1..64, view in grid) on two replicas; carousel/reputation: every (committed chain, head, queried view) on three replicas plus a first-time asker / an object asked other views; membership growth k -> n after the objects exist (all five schemes); large non-contiguous ids; non-trivial = n >= 2 and view >= n (stateless), active carousel / weighted pick with n >= 4")
 }
